@@ -131,7 +131,7 @@ PROPS["C16"] = {
     "bounds": "engine M: one consumer thread that returns + 2 (quick) / 3 (thorough) producers colliding at the full boundary (BUFFER_SIZE 2, pre-filled full); a producer that is still not finished although every other thread returned K steps earlier (K = its longest acyclic path + 2) is a violation; stuttering allowed, no partial-order reduction. engine K (harnesses c01::*): rejected send leaves pending count unchanged, payload handed back, after a drain exactly BUFFER_SIZE sends are accepted, any origin",
     "outside": "more than 3 producers; unbounded fill/drain histories beyond the script length (K covers L<=6 + drain + refill); Arc Multi channels and crossbeam setter sends (excluded by the statement)",
     "assumptions": [_M_NOTE, "'returns promptly' is decided as: the call finishes within a bounded number of its own steps once no other thread is running"],
-    "m": [M("c16_atomic_two_rejected_vs_consumer_n2"), M("c16_atomic_rejected_vs_two_recv_n2"), M("c16_fullsync_two_rejected_vs_consumer_n2"), M("c16_zc_atomic_rejected_vs_consumer_n2"),
+    "m": [M("c16_atomic_two_rejected_vs_consumer_n2"), M("c16_atomic_rejected_vs_two_recv_n2"), M("c16_fullsync_two_rejected_vs_consumer_n2"), M("c16_zc_atomic_rejected_vs_consumer_n2", "thorough"),
           M("c16_atomic_three_senders_n2", "thorough"), M("c16_zc_fullsync_rejected_vs_consumer_n2", "thorough")],
     "k": [H("c01::c01_ring_atomic_n2_l5", inst="AtomicMove<u32,2>", bounds="L=5", oracle="C16 assertions of the FIFO script", stubs=_C08_STUBS),
           H("c01::c01_ring_full_sync_n2_l5", inst="FullSyncMove<u32,2>", bounds="L=5", stubs=_C08_STUBS)],
@@ -197,4 +197,30 @@ PROPS["C07"] = {
     "m": [M("c07_atomic_cancel_all_vs_first_poll"), M("c07_atomic_cancel_all_vs_parked_k1"), M("c07_full_sync_cancel_all_vs_first_poll"), M("c07_atomic_cancel_one_of_two"), M("c07_atomic_cancel_all_vs_send", "thorough"),
           M("c07_atomic_cancel_all_two_streams", "thorough"), M("c07_full_sync_cancel_all_vs_send_parked", "thorough"), M("c07_full_sync_cancel_one_of_two_parked", "thorough")],
     "k": [],
+}
+_C10_STUBS = _C08_STUBS + ["<[u32]>::sort_unstable -> insertion sort (the generic pattern-defeating quicksort makes CBMC's symbolic execution explode; the list has <= MAX_STREAMS <= 4 elements)"]
+_C10_CH_STUBS = _C10_STUBS + ["StreamsManagerBase::wake_stream -> no-op (delivery-only oracle: listeners are drained through ChannelConsumer::consume(), waking cannot change what it returns)"]
+_DEALLOC_ARTEFACT = [r"rust_dealloc must be called on an object whose allocated size matches its layout", r"free argument (must be NULL or valid pointer|must be dynamic object|has offset zero)", r"^double free$"]
+PROPS["C10"] = {
+    "engine": "kani-real",
+    "bounds": "engine K: (a) StreamsManagerBase<MAX_STREAMS> (the bookkeeping all Uni and Multi channels share): fixed-shape histories of 4-6 create_stream_id / report_stream_dropped(solver-chosen live id) calls, MAX_STREAMS 2 and 4, the vacant-id ring's sequence counters starting at 0 and just below 2^32 (so that they wrap during the history); (b) the five non-log Multi channels, MAX_STREAMS 1, BUFFER_SIZE 2: listener A created, one event (any u32) sent, consumed or not (solver's choice), A dropped, listener B created (it recycles A's id): B's first consume must answer nothing",
+    "outside": "symbolic sequence origins at this level (a free origin makes the Vec/concat/sort code of the live-list rebuild cost > 15 min and > 14 GB per harness; the rings themselves are decided for any origin under C01/C15); MAX_STREAMS 1 and > 4; longer histories; concurrent churn (C17); the cancel clause ('until it is told to end') is decided under C07",
+    "assumptions": ["at most MAX_STREAMS streams live at a time (granted by the statement)", "listeners are drained through ChannelConsumer::consume(stream_id) -- the call MutinyStream::poll_next makes -- and dropped by dropping the real MutinyStream (its Drop impl is part of the code under test)",
+                    "tool artefact, ignored in these harnesses only: CBMC reports the deallocation of the EMPTY Vec returned by `peek_remaining().concat()` as invalid (it models a non-zero capacity for it); natively the Vec has capacity 0 and is never deallocated (valgrind-clean), and a 3-second harness on FullSyncMove::peek_remaining().concat() alone reproduces the report (DESIGN.md, C10)"],
+    "functions": ["StreamsManagerBase::{new, create_stream_id, report_stream_dropped, sync_vacant_and_used_streams, used_streams, running_streams_count, keep_stream_running}", "FullSyncMove::{publish_movable, consume_movable, peek_remaining}",
+                  "multi::channels::{arc::atomic, arc::full_sync, arc::crossbeam, ogre_arc::atomic, ogre_arc::full_sync}::{new, create_stream_for_new_events, send, send_derived, consume, drop_resources, running_streams_count}", "MutinyStream::{new, drop}"],
+    "k": [
+        H("c10::c10_shape_ms2_ccdc_o0", inst="StreamsManagerBase<2>", bounds="create, create, drop(any live), create; origin 0", oracle="ids vacant & in range, count == live, live list sorted + sentinel, never exhausted", stubs=_C10_STUBS, ignore_failed=_DEALLOC_ARTEFACT),
+        H("c10::c10_shape_ms2_cdcc_o0", inst="StreamsManagerBase<2>", bounds="create, drop, create, create; origin 0", stubs=_C10_STUBS, ignore_failed=_DEALLOC_ARTEFACT),
+        H("c10::c10_shape_ms2_ccddcc_wrap", inst="StreamsManagerBase<2>", bounds="create, create, drop(any), drop, create, create; origin 2^32-3 (wraps)", stubs=_C10_STUBS, ignore_failed=_DEALLOC_ARTEFACT),
+        H("c10::c10_shape_ms4_cccdc_o0", inst="StreamsManagerBase<4>", bounds="create x3, drop(any live), create; origin 0", stubs=_C10_STUBS, ignore_failed=_DEALLOC_ARTEFACT),
+        H("c10::c10_recycle1_arc_atomic", inst="ChannelMultiArcAtomic<u32,2,1>", bounds="history A:create, send(any u32), (consume)?, drop; B:create (recycles A's id), consume; origin 0", oracle="B yields nothing that was sent before its creation", stubs=_C10_CH_STUBS, ignore_failed=_DEALLOC_ARTEFACT, group="g1"),
+        H("c10::c10_recycle1_ogre_arc_atomic", tier="thorough", inst="ChannelMultiOgreArcAtomic<u32,2,1>", bounds="same history; origin 0", stubs=_C10_CH_STUBS, ignore_failed=_DEALLOC_ARTEFACT, group="g5", mem_gb=40, jobs=1),
+        H("c10::c10_recycle1_arc_full_sync", tier="thorough", inst="ChannelMultiArcFullSync<u32,2,1>", stubs=_C10_CH_STUBS, ignore_failed=_DEALLOC_ARTEFACT, group="g3"),
+        H("c10::c10_recycle1_arc_crossbeam", tier="thorough", inst="ChannelMultiArcCrossbeam<u32,2,1>", stubs=_C10_CH_STUBS, ignore_failed=_DEALLOC_ARTEFACT, group="g3"),
+        H("c10::c10_recycle1_ogre_arc_full_sync", tier="thorough", inst="ChannelMultiOgreArcFullSync<u32,2,1>", stubs=_C10_CH_STUBS, ignore_failed=_DEALLOC_ARTEFACT, group="g3"),
+        H("c10::c10_shape_ms4_ccdcdc_wrap", tier="thorough", inst="StreamsManagerBase<4>", bounds="6 calls; origin 2^32-2", stubs=_C10_STUBS, ignore_failed=_DEALLOC_ARTEFACT, group="g2"),
+        H("c10::c10_books_ms2_l4", tier="thorough", inst="StreamsManagerBase<2>", bounds="L=4 solver-chosen operations, origin ANY u32 (expensive)", stubs=_C10_STUBS, ignore_failed=_DEALLOC_ARTEFACT, group="g4", timeout_s=7200, mem_gb=40, jobs=1),
+    ],
+    "k_budget": {"quick": {"jobs": 4, "timeout_s": 1500, "mem_gb": 16}, "thorough": {"jobs": 3, "timeout_s": 7200, "mem_gb": 30}},
 }
